@@ -199,3 +199,31 @@ def isinf(X, st, e):
 def val(X, st, e):
     v = X.ev(e.args[0], st)
     return Num(v.v, real=v.real)
+
+
+@spec
+def distinct(X, st, e):
+    """no object occurs twice in list L  (single two-variable quantifier with an explicit multi-pattern)"""
+    L = X.ev(e.args[0], st)
+    el, n = st.heap["@el"][L.v], X.llen(st, L)
+    bound = st.meta.get("bound")
+    if bound is not None:
+        return BoolV(z3.And([z3.Implies(z3.And(a < n, b < n), el[a] != el[b]) for a in range(bound) for b in range(a + 1, bound)] or [TRUE]))
+    a, b = fresh("da"), fresh("db")
+    return BoolV(z3.ForAll([a, b], z3.Implies(z3.And(0 <= a, a < b, b < n), el[a] != el[b]), patterns=[z3.MultiPattern(el[a], el[b])]))
+
+
+@spec
+def sorted_by_time(X, st, e):
+    L = X.ev(e.args[0], st)
+    el, n, tm = st.heap["@el"][L.v], X.llen(st, L), st.heap["time"]
+    bound = st.meta.get("bound")
+    if bound is not None:
+        return BoolV(z3.And([z3.Implies(z3.And(b < n), tm[el[a]] <= tm[el[b]]) for a in range(bound) for b in range(a + 1, bound)] or [TRUE]))
+    a, b = fresh("sa"), fresh("sb")
+    return BoolV(z3.ForAll([a, b], z3.Implies(z3.And(0 <= a, a <= b, b < n), tm[el[a]] <= tm[el[b]]), patterns=[z3.MultiPattern(el[a], el[b])]))
+
+
+@spec
+def when(X, st, e):
+    return CondDes(X.truth(X.ev(e.args[0], st), st), X.ev(e.args[1], st))
